@@ -42,11 +42,19 @@ class Ptr:
 
 
 class Mini:
-    def __init__(self, db, hook=None, members=None, budget=20000):
+    def __init__(self, db, hook=None, members=None, budget=20000, typed=None, member_store=False):
         self.db = db
         self.hook = hook or (lambda callee, args, node: None)
         self.members = members or {}       # normalised member-expression text -> value
         self.budget = budget
+        self.typed = typed or {}           # type name (no const / gdstk::) -> value of every input of that type
+        self.member_store = member_store   # allow stores to member expressions (recorded in self.members)
+
+    def _typed(self, e):
+        if not self.typed:
+            return None
+        t = (e.t or '').replace('const ', '').replace('gdstk::', '').strip()
+        return self.typed.get(t)
 
     def tick(self):
         self.budget -= 1
@@ -71,6 +79,8 @@ class Mini:
                 return e.cv
             if e.n in env:
                 return env[e.n]
+            if self._typed(e) is not None:
+                return self._typed(e)
             if e.dk == 'param' and ('&' in (e.t or '') or 'struct' in (e.ct or '') or 'Stream' in (e.t or '')):
                 return ('opaque', e.n)      # an output stream or similar handle that is only passed on
             raise AnalysisBroken('mini-interpreter: unbound variable `%s`' % e.n)
@@ -78,6 +88,8 @@ class Mini:
             t = ' '.join(e.text().split())
             if t in self.members:
                 return self.members[t]
+            if self._typed(e) is not None:
+                return self._typed(e)
             raise AnalysisBroken('mini-interpreter: unbound member `%s`' % t)
         if k == 'ParenExpr':
             return self.ev(e.c[0], env)
@@ -137,6 +149,10 @@ class Mini:
             return int(f(a, b))
         if is_assign(e) or k == 'CompoundAssignOperator':
             t = _strip_casts(e.child('lhs'))
+            if t.k == 'MemberExpr' and self.member_store and e.op == '=':
+                r = self.ev(e.child('rhs'), env)
+                self.members[' '.join(t.text().split())] = r
+                return r
             if t.k != 'DeclRefExpr':
                 raise AnalysisBroken('mini-interpreter: store to `%s` (inputs are read-only)' % t.text()[:40])
             r = self.ev(e.child('rhs'), env)
@@ -207,6 +223,26 @@ class Mini:
                     pass
                 if not self.ev(s.child('cond'), env):
                     break
+        elif k == 'SwitchStmt':
+            v = self.ev(s.child('cond'), env)
+            body = s.child('body')
+            items = [c for c in (body.c if body is not None and body.k == 'CompoundStmt' else []) if c is not None]
+
+            def labels(c):
+                out = []
+                while c is not None and c.k in ('CaseStmt', 'DefaultStmt'):
+                    out.append('default' if c.k == 'DefaultStmt' else (c.child('lhs').cv if c.child('lhs') is not None else None))
+                    c = c.child('sub')
+                return out, c
+            start = next((i for i, c in enumerate(items) if v in labels(c)[0]), None)
+            if start is None:
+                start = next((i for i, c in enumerate(items) if 'default' in labels(c)[0]), None)
+            if start is not None:
+                try:
+                    for c in items[start:]:
+                        self.run(labels(c)[1], env)
+                except _Break:
+                    pass
         elif k == 'BreakStmt':
             raise _Break()
         elif k == 'ContinueStmt':
@@ -217,3 +253,80 @@ class Mini:
             return
         else:
             self.ev(s, env)
+
+
+# ------------------------------------------------------------------------------------------------
+# value of one local at a program point, as a function of a finite-domain input
+
+def _writes(stmt, name):
+    for x in stmt.walk():
+        if x.k == 'VarDecl' and x.n == name:
+            return True
+        if (is_assign(x) or x.k == 'CompoundAssignOperator') and x.child('lhs') is not None:
+            t = _strip_casts(x.child('lhs'))
+            if t is not None and t.k == 'DeclRefExpr' and t.n == name:
+                return True
+        if x.k == 'UnaryOperator' and x.op in ('++', '--', 'post++', 'post--'):
+            t = _strip_casts(x.child('sub'))
+            if t is not None and t.k == 'DeclRefExpr' and t.n == name:
+                return True
+    return False
+
+
+def value_at(db, use, typed=None, members=None, hook=None):
+    """Value of the expression `use` (a node inside a function body) when the inputs are bound by `typed` / `members`.
+    Locals read by `use` are computed by interpreting, in source order, exactly those statements of the enclosing
+    blocks that precede `use` and write one of these locals (a backward slice closed over the locals the slice itself
+    reads). The form of the computation (switch, if chain, conditional expression, helper function) is irrelevant."""
+    chain = []          # enclosing compound statements, innermost first, with the child that contains `use`
+    x = use
+    while x.parent is not None:
+        if x.parent.k == 'CompoundStmt':
+            chain.append((x.parent, x))
+        x = x.parent
+    tnames = set(typed or {})
+    mnames = set(members or {})
+
+    def reads(st):
+        out = set()
+
+        def go(n):
+            if n is None:
+                return
+            if n.k in ('MemberExpr', 'DeclRefExpr') and (n.t or '').replace('const ', '').replace('gdstk::', '').strip() in tnames and not (n.k == 'DeclRefExpr' and n.dk == 'enum'):
+                return          # an input: whatever it is reached through is not part of the slice
+            if n.k == 'MemberExpr' and ' '.join(n.text().split()) in mnames:
+                return
+            if n.k == 'DeclRefExpr' and n.dk == 'local':
+                out.add(n.n)
+            for c in n.c:
+                go(c)
+        go(st)
+        return out
+    need = reads(use)
+    picked = {}
+    changed = True
+    while changed:
+        changed = False
+        for comp, holder in chain:
+            for st in comp.c:
+                if st is None:
+                    continue
+                if st is holder:
+                    break
+                if st.id in picked:
+                    continue
+                if any(_writes(st, n) for n in need):
+                    picked[st.id] = st
+                    more = reads(st)
+                    if not more <= need:
+                        need |= more
+                    changed = True
+    mi = Mini(db, hook=hook, typed=typed, members=dict(members or {}))
+    env = {}
+    try:
+        for sid in sorted(picked):
+            mi.run(picked[sid], env)
+    except (_Break, _Continue):
+        raise AnalysisBroken('mini-interpreter: break/continue escapes the slice for `%s`' % use.text()[:40])
+    return mi.ev(use, env)
